@@ -83,6 +83,8 @@ def gen_parts(rng, ctxname, ids, off=False):
 
 
 def written_expr(rng, src, ctxname):
+    if rng.random() < .15:
+        src = exprs.spread(rng, src).replace('\r\n', '\n')        # the same expression written over several lines (CR/LF is C03's business)
     if ctxname == 'text':
         return exprs.encode_expr_for_markup(rng, src)
     if ctxname == 'dq':
